@@ -86,8 +86,19 @@ def clause_e(repo, chk, res):
         if not (isinstance(t, ast.Compare) and isinstance(t.left, ast.Constant) and t.left.value in want and isinstance(t.ops[0], ast.In) and "float" in norm_text(t.comparators[0])):
             continue
         seen += 1
+        # locals that stand for <particle>.mass / <particle>.width (mass_var = p_i.mass)
+        alias = {}
+        for a_ in walk_local(f.node):
+            if isinstance(a_, ast.Assign) and len(a_.targets) == 1 and isinstance(a_.targets[0], ast.Name) and isinstance(a_.value, ast.Attribute) and a_.value.attr in ("mass", "width") and isinstance(a_.value.value, ast.Name):
+                alias.setdefault(a_.targets[0].id, set()).add(a_.value.attr)
+
         def attrs(stmts):
-            return {x.attr for s_ in stmts for x in ast.walk(s_) if isinstance(x, ast.Attribute) and isinstance(x.value, ast.Name) and x.attr in ("mass", "width")}
+            out = {x.attr for s_ in stmts for x in ast.walk(s_) if isinstance(x, ast.Attribute) and isinstance(x.value, ast.Name) and x.attr in ("mass", "width")}
+            for s_ in stmts:
+                for x in ast.walk(s_):
+                    if isinstance(x, ast.Name) and isinstance(x.ctx, ast.Load) and x.id in alias:
+                        out |= alias[x.id]
+            return out
         a_if, a_else = attrs(st.body), attrs(st.orelse)
         neglect = any("_neglect_when_set_params" in norm_text(s_) for s_ in st.orelse)
         ok = a_if == {want[t.left.value]} and a_else == {want[t.left.value]} and neglect
@@ -162,19 +173,24 @@ def clause_e(repo, chk, res):
     # post-fit standardisation skips every member of a tie group (not only the non-head members)
     chk.rule("E-std", "VarsManager.standard_complex (run by fit_scipy after min_nll is taken) skips a complex variable whose r or phase component occurs anywhere in a tie group: membership is tested against the whole group, not a slice of it")
     sc = repo.fn("tf_pwa/variable.py::VarsManager.standard_complex")
-    tests = []
-    for lp in [x for x in walk_local(sc.node) if isinstance(x, ast.For) and "same_list" in norm_text(x.iter)]:
-        g = norm_text(lp.target)
-        for c in [y for b in lp.body for y in ast.walk(b) if isinstance(y, ast.Compare) and isinstance(y.ops[0], ast.In)]:
-            tests.append((norm_text(c.comparators[0]), g, c))
-    ok = bool(tests) and all(t[0] == t[1] for t in tests)
-    chk.instance("E-std", "standard_complex tests tie membership against %s: %s" % (sorted({t[0] for t in tests}), ok))
-    if not tests:
-        raise AnalysisError("standard_complex: tie-group membership tests not found")
-    if not ok:
-        b = [t for t in tests if t[0] != t[1]][0]
-        chk.violation("E-std", sc.key, "tie-slice", "tie membership is tested against `%s` instead of the whole group `%s`: the head of a tie group is standardised alone (shared radius flipped, only its own phase shifted), so after the fit the model no longer sits at the reported minimum" % (b[0], b[1]), file="tf_pwa/variable.py", line=b[2].lineno)
+    # decided by interpretation on a small manager: which variables reach std_polar
+    from ..sym import SelfObj, Translator, Unmodelled
 
+    vmc = repo.cls(VM_CLASS)
+    done = []
+    hooks = {vmc.methods["std_polar"].key: lambda tr_, a_, k_, n_: done.append(a_[-1]), "builtin.isinstance": lambda tr_, a_, k_, n_: isinstance(a_[0], list)}
+    cv = {"F": True, "H": True, "M": True, "T": True, "P": True, "X": False, "L": [True, False]}
+    so = SelfObj(vmc, {"complex_vars": dict(cv), "same_list": [["Hr", "Mr"], ["Ti", "Ui", "Vi"]], "bnd_dic": {"Pr": "bound"}})
+    try:
+        Translator(repo, hooks=hooks, max_depth=2).call_fn(sc, [], {}, self_obj=so)
+    except Unmodelled as e:
+        raise AnalysisError("standard_complex cannot be interpreted: %s" % e)
+    want = ["F"]  # H: head of an r-tie, M: member of it, T: head of a phase tie, P: bounded, X: Cartesian, L: list-valued
+    ok = done == want
+    chk.instance("E-std", "standard_complex on a manager with a free polar variable F, the head H and a member M of an r-tie, the head T of a phase tie, a bounded P, a Cartesian X and a list-valued L: standardises %s: %s" % (done, ok))
+    if not ok:
+        extra = [x for x in done if x not in want]
+        chk.violation("E-std", sc.key, "tie-slice", "standard_complex standardises %s, expected only the unconstrained polar variable F: %s - a tied or bounded variable that is standardised alone (shared radius flipped, only its own phase shifted) moves the model away from the reported minimum" % (done, ("the head of a tie group is not recognised as tied" if any(x in ("H", "T") for x in extra) else "constrained variables %s are touched" % extra) if extra else "F is skipped"), file="tf_pwa/variable.py", line=sc.lineno)
 
 VAR_FILE = "tf_pwa/variable.py"
 
